@@ -168,6 +168,51 @@ def checks(ids, props_override=None):
         json.dump(meta, open(os.path.join(od, "meta.json"), "w"), indent=1)
 
 
+def pchecks(ids, props_override=None, workers=3, clean=False):
+    """like checks(), but every seed gets its own scratch worktree (BBVC_REPO) and output directory (BBVC_OUT), so
+    several seeds run at once and /repo is never touched. With clean=True the unchanged tree is checked the same way."""
+    from concurrent.futures import ThreadPoolExecutor
+    import threading
+    lock = threading.Lock()
+
+    def one(sid):
+        od = os.path.join(OUT, sid)
+        meta = json.load(open(os.path.join(od, "meta.json"))) if sid != "CLEAN" else {"property": None}
+        props = props_override or [meta["property"]]
+        with lock:
+            wt = worktree(sid)
+        res = {}
+        try:
+            if sid != "CLEAN":
+                rc, out = sh("git apply %s" % os.path.join(od, "patch.diff"), cwd=wt)
+                if rc != 0:
+                    print(sid, "does not apply", out[-200:], flush=True)
+                    return
+            # always the newest contract files (the mirror in /verif), committed to /repo or not
+            sh("cd /verif/contracts/repo && find . -name zz_contracts_verif.go | while read f; do mkdir -p %s/$(dirname $f); cp $f %s/$f; done" % (wt, wt))
+            outd = "/tmp/sv/out-" + sid
+            shutil.rmtree(outd, ignore_errors=True)
+            os.makedirs(outd)
+            for p in props:
+                t0 = time.time()
+                rc, out = sh("BBVC_REPO=%s BBVC_OUT=%s ./check %s quick" % (wt, outd, p), cwd="/verif", timeout=3600)
+                lines = [l for l in out.splitlines() if re.match(r"VIOLATION|UNDECIDED|KNOWN-FINDING|\s+failed obligation|\s+bounded stand-in failed", l)]
+                res[p] = {"exit": rc, "wall_s": round(time.time() - t0), "lines": [l[:300] for l in lines[:12]]}
+                print(sid, p, "exit", rc, round(time.time() - t0), "s |", "; ".join(l[:160] for l in lines[:4]), flush=True)
+            shutil.rmtree(outd, ignore_errors=True)
+        finally:
+            with lock:
+                rm_worktree(wt)
+        if sid != "CLEAN":
+            meta.setdefault("checks", {}).update(res)
+            meta["detected_by"] = sorted(p for p, r in meta["checks"].items() if r["exit"] == 1)
+            json.dump(meta, open(os.path.join(od, "meta.json"), "w"), indent=1)
+
+    todo = ["CLEAN"] if clean else list(staged(ids))
+    with ThreadPoolExecutor(max_workers=workers) as ex:
+        list(ex.map(one, todo))
+
+
 def table():
     rows = []
     for sid in staged([]):
@@ -199,6 +244,11 @@ if __name__ == "__main__":
         stage(sys.argv[2], sys.argv[3:])
     elif cmd == "suite":
         suite(sys.argv[2:])
+    elif cmd in ("pchecks", "pclean"):
+        args = sys.argv[2:]
+        props = [a[2:] for a in args if a.startswith("p=")]
+        w = [int(a[2:]) for a in args if a.startswith("w=")]
+        pchecks([a for a in args if a[1:2] != "="], props or None, w[0] if w else 3, clean=(cmd == "pclean"))
     elif cmd == "checks":
         args = sys.argv[2:]
         props = [a[2:] for a in args if a.startswith("p=")]
